@@ -170,7 +170,7 @@ pub fn run(sc: &StreamSc) -> Obs {
         }
         Src::Bytes(b) => (&empty[..], String::new(), &b[..]),
     };
-    let mut stream = SimStream::with_hint(evs, if sc.entry.iterator() { sc.hint } else { 0 }).reentering_at(if sc.entry.iterator() { sc.reenter_at as usize } else { 0 });
+    let mut stream = SimStream::with_hint(evs, if sc.entry.iterator() { sc.hint } else { 0 }).reentering_at(if sc.entry.iterator() { sc.reenter_at as usize } else { 0 }).panicking_at(if sc.entry.iterator() { sc.panic_at as usize } else { 0 });
     let res = catch_unwind(AssertUnwindSafe(|| match sc.target {
         Target::Value => go::<Value>(sc, &mut stream, &text, bytes),
         Target::String => go::<json_syntax::String>(sc, &mut stream, &text, bytes),
@@ -183,6 +183,19 @@ pub fn run(sc: &StreamSc) -> Obs {
         Ok(Err(e)) => Real::Err(e),
         Err(payload) => {
             if payload.is::<SpinDetected>() { Real::Spin }
+            else if payload.is::<StreamPanicked>() {
+                // the caller's iterator panicked (not the parser's fault); the library must be usable afterwards
+                let after = catch_unwind(AssertUnwindSafe(|| {
+                    let good = Value::parse_str("{\"a\":[1,{\"b\":null}],\"c\":\"\\u00e9\"}").is_ok();
+                    let bad = Value::parse_str("[1,{\"b\":}").is_err();
+                    good && bad
+                }));
+                match after {
+                    Ok(true) => Real::Err(RealErr { err: PErr::Stream { p: 0, id: u32::MAX }, position: 0, span: (0, 0) }),
+                    Ok(false) => Real::Panic("after a panic of the caller's iterator unwound through a parse, a later parse on the same thread gave a wrong verdict (state left behind)".into()),
+                    Err(_) => Real::Panic("after a panic of the caller's iterator unwound through a parse, a later parse on the same thread panicked (state left behind)".into()),
+                }
+            }
             else if let Some(s) = payload.downcast_ref::<&str>() { Real::Panic(s.to_string()) }
             else if let Some(s) = payload.downcast_ref::<String>() { Real::Panic(s.clone()) }
             else { Real::Panic("<non-string panic payload>".into()) }
